@@ -60,3 +60,165 @@ def hash_preimage(t):
 def transcript_of_mac_msg(msg):
     """the preamble (byte string) whose hash is MACed"""
     return hash_preimage(msg)
+
+
+# ---- encodings defined by the code's own public `serialize` functions ---------------------------------------
+def ser(ctx, sn, type_path, value):
+    """bytes of `value.serialize()` for a public message/state type (one path expected)"""
+    s = ctx.summary(sn, type_path + '::serialize', params=[value])
+    if len(s.paths) != 1:
+        return None
+    return s.paths[0].value
+
+
+def ser_pk(x):
+    """PublicKey(x).serialize() — PublicKey::serialize is KG::serialize_pk(self.0) (checked by C09 layout rule)"""
+    return App('KeGroup::serialize_pk', x)
+
+
+def strip_tail(t, n):
+    """drop the last n bytes of a Cat whose trailing parts have known lengths"""
+    parts = cat_parts(t)
+    rem = n
+    while parts and rem > 0:
+        l = tlen(parts[-1])
+        if l is None or l > rem:
+            return None
+        rem -= l
+        parts.pop()
+    return Cat(parts) if rem == 0 else None
+
+
+def expected_preamble(ctx_term, id_u, ke1_bytes, id_s, response_bytes_without_mac):
+    import rfc
+    return Cat([Bytes(b'OPAQUEv1-'), rfc.lp(2, ctx_term), rfc.lp(2, id_u), ke1_bytes, rfc.lp(2, id_s), response_bytes_without_mac])
+
+
+def ident_choice(path, opt_term, default_bytes):
+    """effective identity on this path: the caller's value when the Option was assumed Some, else the default"""
+    a = path.state.assume.get(opt_term)
+    if a == 1:
+        return someval(opt_term)
+    if a == 0:
+        return default_bytes
+    return None
+
+
+def client_login_preamble(ctx, sn, path, P):
+    """RFC preamble instantiated with the client's view (ClientLogin::finish parameters), or None"""
+    a = client_finish(path)
+    if not a['decode_pk']:
+        return None
+    params = Sym('params')
+    cx = App('unwrap_or', ('fld', params, 'context'), Bytes(b''))
+    pkstar = okval(App('KeGroup::deserialize_pk', a['decode_pk'][0][1]))
+    # client static key: public key of the envelope-derived secret
+    csk = None
+    for i, args in a['dh']:
+        if 'rp' in a and contains(args[1], a['rp']):
+            csk = args[1]
+    if csk is None:
+        return None
+    ids = ('fld', params, 'identifiers')
+    id_u = ident_choice(path, ('fld', ids, 'client'), ser_pk(App('KeGroup::public_key', csk)))
+    id_s = ident_choice(path, ('fld', ids, 'server'), ser_pk(pkstar))
+    if id_u is None or id_s is None:
+        return None
+    req = ser(ctx, sn, DECODERS['CredentialRequest'], ('fld', Sym('self'), 'credential_request'))
+    resp = ser(ctx, sn, DECODERS['CredentialResponse'], Sym('response'))
+    if req is None or resp is None:
+        return None
+    resp_nomac = strip_tail(resp, P['Nm'])
+    if resp_nomac is None:
+        return None
+    return expected_preamble(cx, id_u, req, id_s, resp_nomac)
+
+
+def server_login_preamble(ctx, sn, path, P):
+    """RFC preamble instantiated with the server's view (ServerLogin::start), or None"""
+    params = Sym('params')
+    cx = App('unwrap_or', ('fld', params, 'context'), Bytes(b''))
+    res = fields(path.payload)
+    msg = res.get('message')
+    if msg is None:
+        return None
+    file_assumed = path.state.assume.get(Sym('file'))
+    # client static public key: the record's (or the dummy's) key = public key of DH slot 3
+    dhs = [e[2] for _, e in path.calls('KeGroup::diffie_hellman')]
+    req_pk = None
+    static_sk = None
+    client_pk = None
+    eph = [d for d in dhs if find_apps(d[1], 'KeGroup::derive_auth_keypair')]
+    for d in dhs:
+        if d not in eph:
+            static_sk = d[1]
+            req_pk = d[0]
+    for d in eph:
+        if d[0] != req_pk:
+            client_pk = d[0]
+    if static_sk is None or client_pk is None:
+        return None
+    ids = ('fld', params, 'identifiers')
+    id_u = ident_choice(path, ('fld', ids, 'client'), ser_pk(client_pk))
+    id_s = ident_choice(path, ('fld', ids, 'server'), ser_pk(App('KeGroup::public_key', static_sk)))
+    if id_u is None or id_s is None:
+        return None
+    req = ser(ctx, sn, DECODERS['CredentialRequest'], Sym('request'))
+    resp = ser(ctx, sn, DECODERS['CredentialResponse'], msg)
+    if req is None or resp is None:
+        return None
+    resp_nomac = strip_tail(resp, P['Nm'])
+    if resp_nomac is None:
+        return None
+    return expected_preamble(cx, id_u, req, id_s, resp_nomac)
+
+
+def server_login_mac_preimage(path):
+    msg = fields(fields(path.payload).get('message'))
+    for v in msg.values():
+        if v is not None and v[0] == 'adt':
+            for f in fields(v).values():
+                a = app_args(f, 'Mac')
+                if a is not None:
+                    return hash_preimage(a[1]), a
+    return None, None
+
+
+def byte_strings(t):
+    """every authenticated/derived-from byte string under a Hash / Mac / Expand / Extract node of t"""
+    out = []
+    for x in subterms(t, lambda x: x[0] == 'app' and x[1] in ('Hash', 'Mac', 'Expand', 'Extract')):
+        if x[1] == 'Hash':
+            out.append(('Hash input', x[2][0]))
+        elif x[1] == 'Mac':
+            out.append(('Mac input', x[2][1]))
+        elif x[1] == 'Expand':
+            out.append(('Expand info', x[2][1]))
+        elif x[1] == 'Extract':
+            out.append(('Extract ikm', x[2][1]))
+    return out
+
+
+def decodability(s):
+    """unique decodability of a concatenation: every variable-length part is immediately preceded by I2OSP(len(part), w),
+    or it is the only variable-length part.  returns (ok, widths, reason)"""
+    parts = cat_parts(s)
+    var = [i for i, p in enumerate(parts) if tlen(p) is None]
+    widths = {}
+    unpref = []
+    for i in var:
+        p = parts[i]
+        pre = parts[i - 1] if i > 0 else None
+        a = app_args(pre, 'I2OSP')
+        if a is not None and a[0] == App('len', p) and a[1][0] == 'int':
+            widths[i] = a[1][1]
+            continue
+        if app_args(p, 'I2OSP') is not None:
+            continue  # the prefix itself is fixed-width
+        unpref.append(i)
+    real_var = [i for i in var if app_args(parts[i], 'I2OSP') is None]
+    if len(unpref) == 0:
+        return True, widths, ''
+    if len(unpref) == 1 and len(real_var) == 1:
+        return True, widths, 'single variable part'
+    return False, widths, 'variable-length part(s) without length prefix: %s' % [show(parts[i])[:80] for i in unpref]
